@@ -472,6 +472,9 @@ fn judge_partition(
 }
 
 pub fn run_op(ctx: &mut Ctx, op: &str) {
+    if ctx.hang_limit_reached() {
+        return;
+    }
     let Some(parsed) = parse_op(op) else {
         ctx.record(op.to_string(), "bad-op".into(), false);
         return;
